@@ -393,6 +393,8 @@ func TestVerifC25_Store(t *testing.T) {
 		nt := false
 		nOps := rapid.IntRange(1, 24).Draw(t, "nOps")
 		poisonedAbsentRead := false
+		var lastSetID uint64
+		var lastSetKVs []vc25KV
 		reopened := false
 		for i := 0; i < nOps; i++ {
 			// which stores receive the op: mostly both (so that equal blocks are common), sometimes one
@@ -408,6 +410,12 @@ func TestVerifC25_Store(t *testing.T) {
 			case "set":
 				id := rapid.SampledFrom(vc25IDs).Draw(t, "id")
 				kvs := vc25GenAttrs(t, "set", 0)
+				if lastSetKVs != nil && rapid.IntRange(0, 3).Draw(t, "repeatLastSet") == 0 {
+					// the same update again: SetAttrs' "already present" early return
+					id, kvs = lastSetID, lastSetKVs
+					c.Class("repeatedSet")
+				}
+				lastSetID, lastSetKVs = id, kvs
 				trace = append(trace, fmt.Sprintf("%s.SetAttrs(%d,%s)", target, id, vc25DescKVs(kvs)))
 				for _, s := range sides {
 					if s.setAttrs(t, id, kvs) {
